@@ -81,7 +81,7 @@ pub struct Gen<'r> {
 }
 
 const NAMES: [&str; 12] = ["a", "b", "c", "x", "y", "f", "g", "id", "item", "q", "node", "v"];
-const REF_NAMES: [&str; 12] = ["@r", "@s", "@t", "@obj", "@item", "@n1", "@ref-a", "@x", "@true", "@1e3", "@null", "@123"];
+const REF_NAMES: [&str; 15] = ["@r", "@s", "@t", "@obj", "@item", "@n1", "@ref-a", "@x", "@true", "@1e3", "@null", "@123", "@a$b", "@$v", "@p_q"];
 const PROP_NAMES: [&str; 14] = [
     "id", "name", "n", "next", "items", "a", "b", "true", "null", "123", "x-y", "$v", "@at", "self",
 ];
@@ -95,8 +95,9 @@ const MEDIA: [&str; 5] = [
 ];
 const QUALS: [&str; 5] = ["m", "lib", "q", "a", "mod1"];
 const HEADER_NAMES: [&str; 5] = ["ETag", "X-Id", "If-Match", "x-n", "Accept-Language"];
-const STRS: [&str; 16] = [
+const STRS: [&str; 19] = [
     "text", "yes", "no", "1e3", "~", "a: b", "- x", " lead", "trail ", "été €", "null", "true", "0x1F", "#c", "{a}", "'q'",
+    "a😉b", "😉", "価格 €",
 ];
 
 fn keyword(s: &str) -> bool {
@@ -166,7 +167,9 @@ impl<'r> Gen<'r> {
 
     fn pick_param_ty(&mut self) -> Ty {
         match self.rng.below(100) {
-            0..=59 => self.pick_schema_ty(),
+            0..=34 => Ty::Obj,
+            35..=49 => Ty::Prim,
+            50..=59 => self.pick_schema_ty(),
             60..=69 => Ty::Prop(Box::new(Ty::Prim)),
             70..=79 => Ty::Content,
             80..=86 => Ty::Text,
@@ -975,7 +978,18 @@ impl<'r> Gen<'r> {
                 if ptys.iter().all(|t| self.constructible(t, sc)) {
                     let mut args = Vec::new();
                     for t in &ptys {
-                        let a = self.gen(t, depth.saturating_sub(1).min(2), sc);
+                        // Inside a function, passing the caller's own parameters on (in any order) is what
+                        // exposes a callee scope that is visible while arguments are evaluated.
+                        let own: Vec<E> = self
+                            .var_candidates(t, sc)
+                            .into_iter()
+                            .filter(|v| matches!(v, E::Var { target: Target::Param(..), .. } | E::Var { target: Target::Rec(_), .. }))
+                            .collect();
+                        let a = if !own.is_empty() && self.rng.chance(3, 5) {
+                            self.rng.pick(&own).clone()
+                        } else {
+                            self.gen(t, depth.saturating_sub(1).min(2), sc)
+                        };
                         args.push(a);
                     }
                     return E::App {
